@@ -179,6 +179,28 @@ pub fn check_index(
     alt: Option<&VecModel>,
     tally: &mut Tally,
 ) -> Result<(), Fail> {
+    check_with(
+        &|q, k| index.search_f32(q, k).map_err(|e| e.to_string()),
+        (index.len(), index.stats().num_elements),
+        metric,
+        dim,
+        model,
+        alt,
+        tally,
+    )
+}
+
+/// The same oracle over any search entry point (`search(query, k)`) and
+/// element counts `(len, stats.num_elements)`.
+pub fn check_with(
+    search: &dyn Fn(&[f32], usize) -> Result<Vec<(u64, f32)>, String>,
+    counts: (usize, u64),
+    metric: DistanceMetric,
+    dim: usize,
+    model: &VecModel,
+    alt: Option<&VecModel>,
+    tally: &mut Tally,
+) -> Result<(), Fail> {
     let mut queries: Vec<Vec<f32>> = model.live.values().cloned().collect();
     if let Some(alt) = alt {
         for v in alt.live.values() {
@@ -209,8 +231,7 @@ pub fn check_index(
         }
     };
     if alt.is_none() {
-        let len = index.len();
-        let stat = index.stats().num_elements;
+        let (len, stat) = counts;
         if len != model.len() || stat != model.len() as u64 {
             return Err(Fail::new(
                 "len",
@@ -221,7 +242,7 @@ pub fn check_index(
     for q in &queries {
         for k in 1..=n + 1 {
             tally.searches += 1;
-            let res = match index.search_f32(q, k) {
+            let res = match search(q, k) {
                 Ok(r) => r,
                 Err(e) => return Err(Fail::new("search_error", format!("search_f32({q:?}, {k}) failed: {e}"))),
             };
